@@ -137,6 +137,7 @@ def work(ctx, task):
     clauses = task['clauses']
     prop = task['prop']
     world = World(ctx.sb, ctx.fb, 'K0')
+    world.twin_on = any(c.startswith('twin.') for c in clauses)     # model-free from-scratch twin on every build transition
     P = menu()
     A = actions()
     out_states = []
@@ -154,6 +155,7 @@ def work(ctx, task):
         for a in A:
             world.restore(h)
             world.last_commit = None
+            world.twin_on = any(c.startswith('twin.') for c in clauses)
             if a[0] == 'mut':
                 if not world.mutate(a[1]):
                     counters['not_applicable'] += 1
